@@ -1,5 +1,5 @@
 """C16 — Converting between XMI and JSON preserves the CAS."""
-from harness import casgen, common, sessions
+from harness import casgen, common, refio, sessions
 from harness.common import bud
 from harness.props import c01, c05
 
@@ -24,7 +24,122 @@ ASSUMPTIONS = [
 ]
 
 
+def fixture_sessions():
+    """the repository's reference documents: the UIMA-Java JSON reference files (each with the XMI and descriptor of the same
+    CAS) and the XMI fixtures (paired with the first fixture descriptor under which they load strictly).  Read by the
+    independent readers, loaded / dumped / written / converted by implementation and model."""
+    import glob
+    import os
+    import warnings
+    from cassis import load_cas_from_xmi, load_typesystem
+    tf = os.path.join(common.REPO, "tests", "test_files")
+    sess = []
+    for d in sorted(glob.glob(os.path.join(tf, "json", "fs_as_array", "*", "*"))):
+        jf, xf, tsf = (os.path.join(d, n) for n in ("data.json", "debug.xmi", "debug-typesystem.xml"))
+        if not all(os.path.exists(x) for x in (jf, xf, tsf)):
+            continue
+        try:
+            jdoc = refio.read_json(open(jf, encoding="utf-8").read())
+            xdoc = refio.read_xmi(open(xf, encoding="utf-8").read())
+            desc = [t for t in refio.read_ts_xml(open(tsf, "rb").read())]
+        except Exception:  # noqa: BLE001
+            continue
+        if any(t["name"] is None or t["super"] is None for t in desc):
+            continue
+        if any(k_ in ("sofaURI", "@sofaArray") for e in jdoc["fss"] if e.get("ty") == "uima.cas.Sofa" for (k_, _v) in e.get("feats", [])):
+            continue       # C16 (like C01) speaks about CASes with text sofas: XMI carries neither sofa URIs nor sofa byte arrays
+        ops = [{"op": "json.load", "doc": jdoc, "merge": True},                 # handle 0, embedded type system
+               {"op": "cas.dump", "h": 0},
+               {"op": "conv.chain", "h": 0, "kind": "json-xmi", "embedded": True}]
+        sess.append((os.path.relpath(d, tf), ops, "json-ref"))
+    tss = sorted(glob.glob(os.path.join(tf, "typesystems", "*.xml")))
+    with warnings.catch_warnings():
+        warnings.simplefilter("ignore")
+        loaded = []
+        for t in tss:
+            try:
+                loaded.append((t, load_typesystem(open(t, "rb")), refio.read_ts_xml(open(t, "rb").read())))
+            except Exception:  # noqa: BLE001
+                pass
+        for xf in sorted(glob.glob(os.path.join(tf, "xmi", "*.xmi"))):
+            text = open(xf, encoding="utf-8").read()
+            for t, ts, desc in loaded:
+                try:
+                    load_cas_from_xmi(text, typesystem=ts)
+                except Exception:  # noqa: BLE001
+                    continue
+                if any(x["name"] is None or x["super"] is None for x in desc):
+                    continue
+                try:
+                    xdoc = refio.read_xmi(text)
+                except Exception:  # noqa: BLE001
+                    break
+                ids_ = [v for e in xdoc for (k_, v) in e.get("attrs", []) if k_ == "xmi:id"]
+                if ids_ is not None and len(ids_) != len(set(ids_)):
+                    break      # a fixture whose xmi:ids are not pairwise distinct is outside the properties' quantifier
+                # finding J9: the JSON document of a CAS cannot be merged with a type system that declares element types on
+                # primitive-array features: convert such fixtures without supplying the type system again
+                j9 = any(f.get("elem") is not None and f["range"] in casgen.PRIM_ARRAYS for t_ in desc for f in t_["feats"])
+                ops = [{"op": "ts.load_xml", "desc": desc}, {"op": "xmi.load", "doc": xdoc, "ts": 0}, {"op": "cas.dump", "h": 0},
+                       {"op": "conv.chain", "h": 0, "kind": "xmi-json", "embedded": True}]
+                if not j9:
+                    ops.append({"op": "conv.chain", "h": 0, "kind": "xmi-json", "embedded": False})
+                sess.append((os.path.basename(xf) + " + " + os.path.basename(t), ops, "xmi-fixture"))
+                break
+    return sess
+
+
+def run_fixtures(ctx, out):
+    fx = fixture_sessions()
+    impl = sessions.run_impl_sessions([x[1] for x in fx])
+    model = sessions.run_model_sessions(ctx.driver, [x[1] for x in fx])
+    for k, ((name, ops, kind), io) in enumerate(zip(fx, impl)):
+        out.evaluations += 1
+        sc = {"k": "session", "ops": ops, "fixture": name}
+        bad = [i for i, r in enumerate(io) if "ok" not in r]
+        out.count("fixture:%s:%s" % (kind, "ok" if not bad else "raises"))
+        if bad:
+            out.oracle_failures.append({"scenario": sc, "op_index": bad[0], "what": "a reference document of the repository (%s) could not be loaded or converted" % name,
+                                        "actual": io[bad[0]]})
+        else:
+            for i, o_ in enumerate(ops):
+                if o_["op"] != "conv.chain":
+                    continue
+                d1, d2 = io[i]["ok"]
+
+                def nd(d):
+                    # an array object without element list and an empty one are the same array: JSON has one form for both
+                    d = c01.norm_dump(d)
+                    for e in d.get("fs", {}).values():
+                        v_ = (e or {}).get("feats", {}).get("elements", 0)
+                        if v_ == [] or (isinstance(v_, dict) and len(v_) == 1 and list(v_.values())[0] == []):
+                            e["feats"].pop("elements")
+                    return d
+                if "ok" not in d1 or "ok" not in d2 or common.canon(nd(d1["ok"])) != common.canon(nd(d2["ok"])):
+                    def nullrefs(d):
+                        # finding X3: references to xmi:id 0 (the cas:NULL element) read as an object; after JSON they are None
+                        def f_(x):
+                            if isinstance(x, list):
+                                return [None if y == 0 else f_(y) for y in x]
+                            if isinstance(x, dict):
+                                return {k_: (None if (k_ == "ref" and v_ == 0) else f_(v_)) for k_, v_ in x.items()}
+                            return x
+                        return f_(nd(d))
+                    only_null = "ok" in d1 and "ok" in d2 and common.canon(nullrefs(d1["ok"])) == common.canon(nullrefs(d2["ok"]))
+                    out.oracle_failures.append({"scenario": sc, "op_index": i, "what": "reference document %s: the CAS at the end of the conversion chain differs from the CAS loaded first" % name,
+                                                "expected": d1, "actual": d2, "only_null_refs": only_null})
+                    break
+        if model is not None and model[k] is not None:
+            def canon_op(i, x, ops=ops):
+                return c05.canon_floats(c05.c04_canon(i, x, ops))
+            d = sessions.first_diff(io, model[k], canon_op)
+            if d is not None:
+                out.disagreements.append({"scenario": {"k": "fixture", "fixture": name}, "op_index": d, "op": {kk: vv for kk, vv in ops[d].items() if kk not in ("doc", "desc")},
+                                          "impl": str(io[d])[:600], "model": str(model[k][d])[:600] if d < len(model[k]) else None})
+
+
 def run(ctx, out, budget):
+    run_fixtures(ctx, out)
     out.rule = ("CASes of C01; both chains XMI -> CAS -> JSON -> CAS and JSON -> CAS -> XMI -> CAS, with the original or the "
                 "JSON-embedded type system; the coarse id-keyed dump of the last CAS must equal the dump of the CAS loaded first; the "
                 "same chain is executed by the model. Non-trivial = distinct (CAS, chain) with >= 3 structures.")
@@ -71,3 +186,31 @@ def replay(ctx, payload):
         return True
     d1, d2 = r["ok"]
     return "ok" not in d1 or "ok" not in d2 or common.canon(c01.norm_dump(d1["ok"])) != common.canon(c01.norm_dump(d2["ok"]))
+
+
+def finding_of(fl):
+    if fl.get("only_null_refs") is True and str(fl.get("what", "")).startswith("reference document"):
+        return "X3-null-reference-as-NULL-object"
+    return None
+
+
+def run_witness(ctx, finding):
+    if finding["id"] != "X3-null-reference-as-NULL-object":
+        return False
+    import os
+    import warnings
+    from cassis import load_cas_from_json, load_cas_from_xmi, load_typesystem
+    tf = os.path.join(common.REPO, "tests", "test_files")
+    with warnings.catch_warnings():
+        warnings.simplefilter("ignore")
+        try:
+            ts = load_typesystem(open(os.path.join(tf, "typesystems", "typesystem_with_collections.xml"), "rb"))
+            cas = load_cas_from_xmi(open(os.path.join(tf, "xmi", "cas_with_collections.xmi"), "rb"), typesystem=ts)
+            arrs = [fs for fs in cas._find_all_fs() if fs.type.name == "uima.cas.FSArray" and fs.elements]
+            had = any(e is not None and e.type.name == "uima.cas.NULL" for a in arrs for e in a.elements)
+            c2 = load_cas_from_json(cas.to_json())
+            arrs2 = [fs for fs in c2._find_all_fs() if fs.type.name == "uima.cas.FSArray" and fs.elements]
+            now = any(e is None for a in arrs2 for e in a.elements)
+            return had and now
+        except Exception:  # noqa: BLE001
+            return False
